@@ -55,7 +55,7 @@ def gen_plan(prop, run_seed, tier):
         elif kind == "sizes":
             sizes[w.randrange(n_plates)] = w.choice([33, 70, 130])
         else:
-            n = w.choice([10, 12, 13])
+            n = w.choice([10, 13, 20, 23, 32])  # C(32,3) = 4960 <= the default budget of 5000: still enumerated
     return dict(engine="dbalsim", prop=prop, sizes=sizes, n=n, mode=w.choice(["homo", "hetero", "platehomo"]),
                 seed=w.randrange(2**31), zero_dist=w.choice([0.0, 0.2, 0.6, 1.0 if w.random() < 0.15 else 0.3]),
                 D=w.randint(1, 3), var_span=w.choice([1, 3, 6]), sched_seed=s.randrange(2**31),
